@@ -972,10 +972,12 @@ def generate_group(repo, g, group_name):
             sig, lines, rty = tr.translate(node)
             done[fn.qualname.split(".")[-1]] = (fn, rty)
             items.append((fn, info, "\n".join(tr.prelude + [sig]), lines))
-        except Untranslatable as e:
+        except Exception as e:        # noqa: BLE001 — Untranslatable, or a defect of the translator itself: both fail closed
+            if not isinstance(e, Untranslatable):
+                e = Untranslatable(f"{fn.qualname}: translator error {type(e).__name__}: {e}")
             info = dict(info, untranslatable=str(e))
             problems.append(f"{fn.qualname} ({fn.file}:{info['lines'][0]}-{info['lines'][1]}): Untranslatable: {e}")
-            items.append((fn, info, f"-- UNTRANSLATABLE `{fn.qualname}`: {e}", []))
+            items.append((fn, info, f"-- UNTRANSLATABLE `{fn.qualname}`: " + str(e).replace("\n", " "), []))
         infos.append(info)
     header = (f"GENERATED by harness/py2lean.py (group {group_name}) from " + ", ".join(files) +
               " of the checked repository — rewritten on every check, do not edit.")
